@@ -80,6 +80,10 @@ def gram_cases(rng, quick):
     out.append(("hexagonal", [[18, -9, 0], [-9, 18, 0], [0, 0, 50]], 2))          # a = 3, c = 5, gamma = 120
     out.append(("monoclinic", [[16, 0, -5], [0, 25, 0], [-5, 0, 25]], 1))          # cos(beta) = -1/4
     out.append(("rhombohedral", [[16, 4, 4], [4, 16, 4], [4, 4, 16]], 1))
+    # reflections lying EXACTLY on the limiting sphere 1/d = 2/lambda (cell edge = integer multiple of lambda/2): strict window
+    out.append(("boundary", [[4, 0, 0], [0, 4, 0], [0, 0, 4]], 1, 1.0))
+    out.append(("boundary", [[9, 0, 0], [0, 25, 0], [0, 0, 100]], 1, 2.0))
+    out.append(("boundary", [[4, 0, 0], [0, 9, 0], [0, 0, 16]], 1, 1.0))
     for _ in range(3 if quick else 40):
         L = np.array([[rng.randint(-4, 6) for _ in range(3)] for _ in range(3)])
         if abs(round(np.linalg.det(L))) < 8:
@@ -178,13 +182,14 @@ def run(ctx):
     # ---- peaks
     lams = [1.5406, 0.71, 2.29]
     npk = 0
-    for (kind, G, s) in gram_cases(rng, quick):
+    for gc in gram_cases(rng, quick):
+        kind, G, s = gc[0], gc[1], gc[2]
         cof, det = adj_det(G)
         if det <= 0:
             continue
         hs = rng.sample(halls, 3 if quick else 12) + [1]
         for H in hs:
-            lam = rng.choice(lams)
+            lam = gc[3] if len(gc) > 3 else rng.choice(lams)
             lam2 = Fr(lam) ** 2
             # 1/d^2 = s * h cof h / det ;  window 1/d^2 < 4 / lam^2   <=>   (h cof h) * (s * lam2.num) < 4 * det * lam2.den
             rn, rd = 4 * det * lam2.denominator, s * lam2.numerator
@@ -207,6 +212,24 @@ def run(ctx):
                 want2t = 2 * math.degrees(math.asin(math.sqrt(float(Fr(q0 * s, det))) * lam / 2))
                 if abs(want2t - float(th2)) > 2e-6:
                     ctx.fail_input("peaks", dict(kind=kind, G=G, s=s, lam=lam, hall=H), "2theta of peak %s is %r, 2 asin(lambda/2d) is %r" % (hu, th2, want2t), None)
+            # the property stated directly (exact rationals): listed <=> rule and 0 < 1/d^2 < (2/lambda)^2, for every hkl
+            lim = Fr(4) / lam2
+            listed = set(t3 for g in got for t3 in g[1])
+            Gr_ = [[Fr(int(x), s) for x in r] for r in G]
+            hb = [int(math.sqrt(float(lim) * float(Gr_[i][i]))) + 2 for i in range(3)]
+            try:
+                from soprano.calculate.xrd import sel_rules as SR2
+                rule_f = SR2.get_sel_rule_from_hall(H)
+                want_set = set()
+                for hkl in itertools.product(*[range(-b_, b_ + 1) for b_ in hb]):
+                    qq = Fr(sum(hkl[i] * cof[i][j] * hkl[j] for i in range(3) for j in range(3)) * s, det)
+                    if 0 < qq < lim and rule_f(hkl):
+                        want_set.add(tuple(hkl))
+                if listed != want_set:
+                    ctx.fail_input("peaks", dict(kind=kind, G=G, s=s, lam=lam, hall=H),
+                                   "peak list != {hkl : rule and 0 < 1/d < 2/lambda}: spurious %s missing %s" % (sorted(listed - want_set)[:3], sorted(want_set - listed)[:3]), None)
+            except Exception as e:
+                ctx.notes.append("peak oracle failed: %r" % e)
             # distinct spacings whose 2theta differ by less than 2e-6 deg may legitimately be merged by the rounding: skip those lattices
             ths = sorted(g[5] for g in got)
             if any(b2 - a2 < 4e-6 for a2, b2 in zip(ths, ths[1:])):
